@@ -40,7 +40,7 @@ fn run(id: &str, tier: Tier, seed: u64, only_root: Option<String>, out: &Out) ->
                 });
             }
         }
-        "C19" => { c19::run::<CL1024Sha256>(&env); if t { c19::run::<CL2048Sha256>(&env); } }
+        "C19" => { c19::run::<CL1024Sha256>(&env); if t { c19::run::<CL2048Sha256>(&env); } else { c19::run_fixture::<CL2048Sha256>(&env, include_str!("../fixtures/CL2048_keypair.json")); } }
         _ => { out.line(&format!("MACHINERY-ERROR: unknown property {}", id)); return 2; }
     }
     let code = env.ctx.finish(out);
@@ -60,6 +60,16 @@ fn main() {
             if let Some(p) = args.iter().position(|a| a == "--tier") { tier = if args.get(p + 1).map(|s| s.as_str()) == Some("thorough") { Tier::Thorough } else { Tier::Quick }; }
             let only = args.iter().position(|a| a == "--root").and_then(|p| args.get(p + 1).cloned());
             run(&id, tier, seed, only, &out)
+        }
+        Some("genkey") => {
+            // one-off: prints a freshly generated key pair of the named suite as JSON (how engine/clmc/fixtures/*.json were made)
+            use zkryptium::keys::pair::KeyPair; use zkryptium::schemes::algorithms::CL03;
+            match args.get(2).map(|s| s.as_str()) {
+                Some("CL2048") => out.line(&serde_json::to_string(&KeyPair::<CL03<CL2048Sha256>>::generate()).unwrap()),
+                Some("CL1024") => out.line(&serde_json::to_string(&KeyPair::<CL03<CL1024Sha256>>::generate()).unwrap()),
+                _ => out.line("usage: clmc genkey CL1024|CL2048"),
+            }
+            0
         }
         Some("replay") => {
             let path = args.get(2).cloned().unwrap_or_default();
